@@ -186,7 +186,7 @@ func DataURI(dataURI []byte) ([]byte, []byte, error) {
 						}
 						data = decoded[:n]
 					} else {
-						data = DecodeURL(data)
+						data = decodeURL(data, false) // a plus sign is not a space in a data URI
 					}
 					return mediatype, data, nil
 				}
@@ -523,6 +523,11 @@ func EncodeURL(b []byte, table [256]bool) []byte {
 
 // DecodeURL decodes an URL encoded using the URL encoding scheme
 func DecodeURL(b []byte) []byte {
+	return decodeURL(b, true)
+}
+
+// decodeURL decodes percent-encoded bytes, and a plus sign as a space (as in a query string) if plus is set
+func decodeURL(b []byte, plus bool) []byte {
 	for i := 0; i < len(b); i++ {
 		if b[i] == '%' && i+2 < len(b) {
 			j := i + 1
@@ -540,7 +545,7 @@ func DecodeURL(b []byte) []byte {
 				b[i] = byte(c)
 				b = append(b[:i+1], b[i+3:]...)
 			}
-		} else if b[i] == '+' {
+		} else if plus && b[i] == '+' {
 			b[i] = ' '
 		}
 	}
